@@ -861,6 +861,23 @@ class Interp:
                         return f
                     return PBound(f, o.cls if f.kind == "class" else o)
                 return f
+            if o.has_base and type(o.base).__name__ == "SymDT":
+                # symbolic datetime: field-wise attributes; methods that return a datetime return an instance of the subclass
+                try:
+                    a = getattr(o.base, name)
+                except AttributeError:
+                    a = None
+                if a is not None or name in ("tzinfo",):
+                    if callable(a) and not isinstance(a, Sym):
+                        def meth(*args, _a=a, **kw):
+                            r = _a(*[self.unbase(x) for x in args], **{k: self.unbase(v) for k, v in kw.items()})
+                            if type(r).__name__ == "SymDT":
+                                w = PObj(o.cls, r)
+                                self.allocs.append(w)
+                                return w
+                            return r
+                        return meth
+                    return a
             if o.has_base:
                 for m in self.attr_models:
                     r = m(self, o.base, name)
@@ -906,6 +923,12 @@ class Interp:
                         if isinstance(b, type) and issubclass(b, _dtm.date) and getattr(v, "__self__", None) is b and callable(v):
                             # alternative constructors of datetime called on the subclass return an instance of the subclass
                             def ctor(*a, _v=v, _b=b, **k):
+                                if len(a) == 1 and type(self.unbase(a[0])).__name__ == "ISOText" and getattr(_v, "__name__", "") == "fromisoformat":
+                                    from .models.dt import from_iso
+
+                                    w = PObj(o, from_iso(self, self.unbase(a[0])))
+                                    self.allocs.append(w)
+                                    return w
                                 try:
                                     r = _v(*[self.unbase(x) for x in a], **{kk: self.unbase(vv) for kk, vv in k.items()})
                                 except Exception as e:
